@@ -10,6 +10,9 @@ config reader reported for one configuration; an expectation says what the prope
 * `value`    … and the decoded field must hold the given value (a given option, or the default when nothing / null is given)
 * `cast`     a field that is exactly one placeholder must hold the resolved text converted to the field's kind
              (`castExpect`), and must be rejected when the text is not a literal of that kind
+* `meets`    a field given a value next to the bound of one of its documented constraints (`demandAll`): a value that
+             meets every constraint must be accepted and stored, one that violates one must be rejected; values the
+             documentation does not speak about (a port written `+80`, an IPv6 host, …) carry no demand
 * `disc`     the CLI reader: `discard_overflow` of every pool is what the pool says, and `true` when it says nothing
 -/
 import Pandora.Model.C17
@@ -40,6 +43,87 @@ def castExpect (k : Kind) (raw : Str) : Option DVal :=
     | some w => some w
     | none => (parseDuration raw).map DVal.int
 
+/-! ## documented constraints, stated independently of the validator's code
+
+`endpoint`: "host:port" or ":port" (core/config/validations.go, docs: the gun `target`), the port a decimal number
+1 … 65535.  `url-path`: one or more `/segment`, the segment characters of RFC 3986.  `min-time` / `max-time` / `min`:
+the bound is inclusive.  `required`: not the zero value.  `eq=a|eq=b`: one of the alternatives. -/
+
+/-- a port text: `some true` — decimal, no sign, no leading zero, 1 … 65535; `some false` — certainly no port (empty,
+a character that is no digit, a minus sign, the numbers 0 and above 65535); `none` — forms the documentation is silent
+about (`+80`, `080`) -/
+def portClass (p : Str) : Option Bool :=
+  if allDigits p then
+    let n := digitsVal p 0
+    if n == 0 || n > 65535 then some false
+    else if p.head? == some '0' then none else some true
+  else
+    match p with
+    | '+' :: r => if allDigits r then none else some false
+    | _ => some false
+
+def hostLabelOk (l : Str) : Bool :=
+  match l with
+  | [] => false
+  | c :: r => asciiAlnum c && (r.all fun x => asciiAlnum x || x == '-') && r.getLast? != some '-' && decide (l.length ≤ 63)
+
+/-- an RFC 1123 host name or dotted quad: dot-separated labels of letters, digits and inner hyphens -/
+def simpleHost (h : Str) : Bool :=
+  decide (h.length ≤ 253) && (h.all fun c => asciiAlnum c || c == '-' || c == '.') && (splitDots h).all hostLabelOk
+
+/-- what the documentation demands of an `endpoint` value: `some true` must be accepted, `some false` must be rejected -/
+def endpointDemand (s : Str) : Option Bool :=
+  match cutLastColon s with
+  | none => some false
+  | some (host, port) =>
+    match portClass port with
+    | some false => some false
+    | some true => if host.isEmpty || simpleHost host then some true else none
+    | none => none
+
+/-- pieces between slashes -/
+def splitSlashes : Str → List Str
+  | [] => [[]]
+  | c :: cs =>
+    if c == '/' then [] :: splitSlashes cs
+    else
+      match splitSlashes cs with
+      | [] => [[c]]
+      | l :: ls => (c :: l) :: ls
+
+/-- `url-path`: a `/`, then one or more non-empty segments of RFC 3986 path characters separated by single `/` -/
+def urlPathDemand (s : Str) : Bool :=
+  match s with
+  | '/' :: r => (splitSlashes r).all fun seg => !seg.isEmpty && seg.all pathCharOk
+  | _ => false
+
+/-- one documented constraint against a decoded value: `some true` met, `some false` violated, `none` no statement -/
+def demand (t : VTag) (v : DVal) : Option Bool :=
+  match t, v with
+  | .required, v => some (!v.isZero)
+  | .min n, .int i => some (decide (n ≤ i))
+  | .min n, .uint u => some (decide (n ≤ (u : Int)))
+  | .min n, .float d => some (d.geInt n)
+  | .minTime ns, .int i => some (decide (ns ≤ i))
+  | .maxTime ns, .int i => some (decide (i ≤ ns))
+  | .endpoint, .str s => endpointDemand s
+  | .urlPath, .str s => some (urlPathDemand s)
+  | .oneOf alts, .str s => some (alts.contains s)
+  | _, _ => none
+
+/-- all constraints of a field (validator order; `omitempty` ends the chain for a zero value): violated as soon as one
+is certainly violated, met when every one is certainly met -/
+def demandAll : List VTag → DVal → Option Bool
+  | [], _ => some true
+  | .omitempty :: r, v => if v.isZero then some true else demandAll r v
+  | .dive :: r, v => demandAll r v
+  | t :: r, v =>
+    match demand t v, demandAll r v with
+    | some false, _ => some false
+    | _, some false => some false
+    | some true, some true => some true
+    | _, _ => none
+
 def stepPtr : DVal → DVal
   | .ptr v => v
   | v => v
@@ -60,6 +144,7 @@ inductive Expect
   | accept
   | value (loc : Option (List Str)) (want : DVal)
   | cast (loc : Option (List Str)) (k : Kind) (raw : Str)
+  | meets (loc : Option (List Str)) (tags : List VTag) (v : DVal)
   | disc (want : List Bool)
   | nothing
 
@@ -114,6 +199,13 @@ def holds : Expect → Obs → Verdict
     | none => match o with
       | .rejected => .ok
       | _ => .fail "accepted"
+  | .meets loc tags v, o =>
+    match demandAll tags v with
+    | some true => checkValue loc v o
+    | some false => match o with
+      | .rejected => .ok
+      | _ => .fail "accepted"
+    | none => .ok
   | .disc want, .discards ds => if ds == want then .ok else .fail "discard"
   | .disc _, .rejected => .fail "rejected"
   | .disc _, _ => .inconclusive
